@@ -4,7 +4,9 @@ import (
 	"bytes"
 	"encoding/json"
 	"fmt"
+	"github.com/gcash/bchd/chaincfg"
 	"math/big"
+	"strings"
 
 	"github.com/gcash/bchd/bchec"
 	"github.com/gcash/bchutil"
@@ -24,6 +26,8 @@ func init() {
 }
 
 type c06Key struct {
+	// Net: a built-in network, or "wif:<id>" = a network of the caller's own (a chaincfg.Params value
+	// with that PrivateKeyID; NewWIF / IsForNet take the parameter set as given)
 	Net        string `json:"net"`
 	Scalar     string `json:"scalar_hex"` // 32 bytes
 	Compressed bool   `json:"compressed"`
@@ -34,10 +38,20 @@ func c06EvalKey(w *mc.W, cas c06Key) {
 	w.Eval()
 	fail := func(class, detail string) { c.Violate(class, "key", cas, detail) }
 	kb := mc.UnHex(cas.Scalar)
-	rn := refNet(cas.Net)
+	var rn ref.Net
+	params := netParams[cas.Net]
+	if strings.HasPrefix(cas.Net, "wif:") {
+		var id int
+		fmt.Sscanf(cas.Net[4:], "%d", &id)
+		p := chaincfg.SimNetParams
+		p.Name, p.PrivateKeyID = cas.Net, byte(id)
+		params, rn = &p, ref.Net{Name: cas.Net, WIFID: byte(id)}
+	} else {
+		rn = refNet(cas.Net)
+	}
 	msg, p := mc.Guard(func() {
 		priv, _ := bchec.PrivKeyFromBytes(bchec.S256(), kb)
-		wif, err := bchutil.NewWIF(priv, netParams[cas.Net], cas.Compressed)
+		wif, err := bchutil.NewWIF(priv, params, cas.Compressed)
 		if err != nil {
 			fail("newwif-fails", err.Error())
 			return
@@ -266,6 +280,15 @@ func runC06(c *mc.Ctx) {
 		for _, s := range scalars {
 			for _, comp := range []bool{false, true} {
 				keys = append(keys, c06Key{Net: net.Name, Scalar: mc.Hex(s), Compressed: comp})
+			}
+		}
+	}
+	// networks of the caller's own with private-key identifiers at the ends of the byte range (0x00
+	// makes the strings start with '1' characters and shorter than usual; 0xff longer)
+	for _, id := range []int{0x00, 0x01, 0x7f, 0xfe, 0xff} {
+		for _, s := range scalars {
+			for _, comp := range []bool{false, true} {
+				keys = append(keys, c06Key{Net: fmt.Sprintf("wif:%d", id), Scalar: mc.Hex(s), Compressed: comp})
 			}
 		}
 	}
